@@ -4,7 +4,7 @@ from vlib import enc
 from checklib import Scenario
 
 RULE = ("every field kind (key, value, continuation line, section, comment before, comment after, file name, directory name, "
-        "full path of the main file of a layered read at PATH_MAX-1 and just below, file name (NAME_MAX-5..NAME_MAX) and full path (PATH_MAX-6..PATH_MAX-1) handed to econf_writeFile, option string) x lengths {1, BUFSIZ-2..BUFSIZ+2, 2*BUFSIZ, 64Ki (quick) / 1Mi (thorough)} and {NAME_MAX-1, NAME_MAX} "
+        "full path of the main file of a layered read at PATH_MAX-1 and just below, file name (NAME_MAX-5..NAME_MAX) and full path (PATH_MAX-6..PATH_MAX-1) handed to econf_writeFile, option string) x lengths {1, 2^k-1..2^k+1 for k = 6..12, BUFSIZ-2..BUFSIZ+2, 2*BUFSIZ, 64Ki (quick) / 1Mi (thorough)} and {NAME_MAX-1, NAME_MAX} "
         "x every API copying that field: read, plain getter, extended getter, merge, write + re-read, setters, layered read; "
         "the oracle checks the LENGTH of what comes back against what was put in; values also against the model; "
         "distinct by (field, length)")
@@ -18,7 +18,9 @@ def lengths(tier):
 
 def gen(rng, tier):
     out = []
-    for n in lengths(tier):
+    # besides the stdio buffer size: every length next to the sizes allocators and hand-written growth code like
+    windows = [n + d for n in (64, 128, 256, 512, 1024, 2048, 4096) for d in (-1, 0, 1)]
+    for n in windows + lengths(tier):
         big = b"v" * n
         # value, key, section, comments, continuation line through read / getters / ext / merge / write / reread
         cases = {
@@ -152,4 +154,4 @@ def oracle(s, ilines):
     return None
 
 def nontrivial(s, mlines):
-    return s.n >= 4000
+    return s.n >= 60
